@@ -665,7 +665,14 @@ impl Archetype {
 
                 Column {
                     component_layout: info.layout(),
-                    data: NonNull::dangling(),
+                    // Dangling, but aligned for the component.
+                    data: unsafe {
+                        NonNull::new_unchecked(
+                            NonNull::<u8>::dangling()
+                                .as_ptr()
+                                .wrapping_add(info.layout().align() - 1),
+                        )
+                    },
                     drop: info.drop(),
                 }
             })
